@@ -1,4 +1,4 @@
 import Arc.Base.Proto
 import Arc.Model.C22.Wire
 /-! Model driver for C22 (reads ops on stdin, prints one line per op). -/
-def main : IO Unit := Arc.Proto.run Arc.C22.Wire.step Arc.C22.State.empty
+def main : IO Unit := Arc.Proto.run Arc.C22.Wire.step Arc.C22.Wire.DS.init
